@@ -8,7 +8,9 @@
    IC sys n | G1 adj | nodelist | idx | G2 adj | nl2 | phi | X0 (len q..) | Y0 (len q..)
        -> OK V0 | P V0 | V0'
    PIC sys n | G1 adj | nodelist | idx | G2 adj | nl2 | phi | I0 (len nodes..) | R0 (len nodes..)      (the *_pure_IC entry points)
-       -> OK V0 | P V0 | V0' *)
+       -> OK V0 | P V0 | V0'
+   ISO n | G1: per node: deg successors.. | G2: the same | tbl (n nodes of G2, by node of G1)      (hypotheses of the wrapper / simulator theorems)
+       -> OK iso_okb *)
 let pv l = String.concat " " (List.map sq l)
 let nnat () = nat_of_int (nint ())
 let zero = qi 0 1
@@ -81,8 +83,16 @@ let run_pic () =
   let (v0, (pv0, v0')) = c14x_pure_ic sys (mk_graph n adj) nodelist (tab_nat n idx) (mk_graph n adj2) nl2 (tab_n n phi) i0 r0 in
   out ("OK " ^ pv v0 ^ " | " ^ pv pv0 ^ " | " ^ pv v0')
 
+let run_iso () =
+  let n = nint () in
+  let adj = read_adj n in
+  let adj2 = read_adj n in
+  let tbl = List.init n (fun _ -> nn ()) in
+  out ("OK " ^ sb (iso_okb (mk_graph n adj) (mk_graph n adj2) tbl))
+
 let () = main (function
     | "EQV" -> run_eqv ()
     | "IC" -> run_ic ()
     | "PIC" -> run_pic ()
+    | "ISO" -> run_iso ()
     | c -> out ("BADCMD " ^ c))
